@@ -16,7 +16,7 @@ use std::fmt::Debug;
 use std::hash::{Hash, Hasher};
 use std::panic::{catch_unwind, AssertUnwindSafe};
 use std::path::{Path, PathBuf};
-use std::sync::atomic::{AtomicU64, Ordering};
+
 use std::sync::{Mutex, OnceLock};
 use std::time::Instant;
 
@@ -168,6 +168,15 @@ pub enum Mode {
     Generate,
     /// Run the given replay files through the matching campaigns, generate nothing.
     Replay(Vec<(PathBuf, ReplayFile)>),
+}
+
+/// Debugging aid: VERIF_ONLY=<campaign>[,<campaign>] runs only those campaigns. Honoured only together with VERIF_OUT
+/// (scratch output directory), so that a registered check always runs all of its campaigns.
+fn only_skips(sub: &str) -> bool {
+    match (std::env::var("VERIF_ONLY"), std::env::var("VERIF_OUT")) {
+        (Ok(only), Ok(_)) => !only.split(',').any(|o| o == sub),
+        _ => false,
+    }
 }
 
 /// Outcome of one byte-level fuzz input: the campaign whose case type can replay it, the case, and the verdict.
@@ -345,7 +354,8 @@ pub fn guarded<R>(f: impl FnOnce() -> Result<R, CaseFail>) -> Result<R, CaseFail
 // ---------------------------------------------------------------------------------------------
 // watchdog
 
-static CASE_STARTED_MS: AtomicU64 = AtomicU64::new(0);
+/// start time (ms) of the case each shard thread is running, 0 = between cases; one slot per thread
+static CASE_STARTED: std::sync::Mutex<Vec<(std::thread::ThreadId, u64)>> = std::sync::Mutex::new(Vec::new());
 static WATCHDOG: OnceLock<Instant> = OnceLock::new();
 
 fn now_ms() -> u64 {
@@ -360,7 +370,7 @@ pub fn start_watchdog(limit_s: u64) {
         .name("watchdog".into())
         .spawn(move || loop {
             std::thread::sleep(std::time::Duration::from_millis(500));
-            let started = CASE_STARTED_MS.load(Ordering::Relaxed);
+            let started = CASE_STARTED.lock().map(|v| v.iter().map(|e| e.1).filter(|t| *t != 0).min().unwrap_or(0)).unwrap_or(0);
             if started != 0 && now_ms().saturating_sub(started) > limit_s * 1000 {
                 eprintln!("INCONCLUSIVE: watchdog: a case ran longer than {limit_s}s");
                 println!("INCONCLUSIVE watchdog");
@@ -371,10 +381,19 @@ pub fn start_watchdog(limit_s: u64) {
 }
 
 pub fn case_begin() {
-    CASE_STARTED_MS.store(now_ms().max(1), Ordering::Relaxed);
+    set_case_started(now_ms().max(1));
 }
 pub fn case_end() {
-    CASE_STARTED_MS.store(0, Ordering::Relaxed);
+    set_case_started(0);
+}
+fn set_case_started(v: u64) {
+    let me = std::thread::current().id();
+    if let Ok(mut slots) = CASE_STARTED.lock() {
+        match slots.iter_mut().find(|e| e.0 == me) {
+            Some(e) => e.1 = v,
+            None => slots.push((me, v)),
+        }
+    }
 }
 
 // ---------------------------------------------------------------------------------------------
@@ -501,7 +520,7 @@ impl Ctx {
         if self.run_replays::<T, F>(sub, &f) {
             return;
         }
-        if self.should_skip() {
+        if self.should_skip() || only_skips(sub) {
             return;
         }
         let shards = cfg.shards.max(1);
@@ -636,7 +655,7 @@ impl Ctx {
         if self.run_replays::<T, F>(sub, &f) {
             return;
         }
-        if self.should_skip() {
+        if self.should_skip() || only_skips(sub) {
             return;
         }
         let known: Vec<String> = self
